@@ -219,14 +219,33 @@ pub static OPS: &[OpDef] = &[
     op!("unary_union", OVERLAY_FAMS, false, true, |i, o| w_mpoly(o, &unary_union(i.a.0.iter().chain(i.b.0.iter())))),
     op!("unary_union_multi", OVERLAY_FAMS, false, false, |i, o| w_mpoly(o, &unary_union([&i.a, &i.b]))),
     // ---- hash-map users
-    op!("stitch_triangulation", TILING_FAMS, true, false, |i, o| match stitch_input(i).stitch_triangulation() {
-        Ok(mp) => {
-            o.tag(1);
-            w_mpoly(o, &mp)
+    op!("stitch_triangulation", TILING_FAMS, true, false, |i, o| {
+        let tris = stitch_input(i);
+        match tris.stitch_triangulation() {
+            Ok(mp) => {
+                o.tag(1);
+                w_mpoly(o, &mp)
+            }
+            Err(e) => {
+                o.tag(0);
+                w_dbg(o, &e)
+            }
         }
-        Err(e) => {
-            o.tag(0);
-            w_dbg(o, &e)
+        // the same triangles with every 20th one given twice (an edge then occurs three or four times: outside
+        // the documented precondition, but whatever comes back - Ok or Err - must come back every time)
+        let mut dup = tris.clone();
+        for k in (0..tris.len()).step_by(20) {
+            dup.push(tris[k]);
+        }
+        match dup.stitch_triangulation() {
+            Ok(mp) => {
+                o.tag(1);
+                w_mpoly(o, &mp)
+            }
+            Err(e) => {
+                o.tag(0);
+                w_dbg(o, &e)
+            }
         }
     }),
     op!("earcut_triangles", POLY_FAMS, false, false, |i, o| {
